@@ -134,21 +134,25 @@ def classify(channel, rc, err, fatal_only=False):
     return "exit", "exit code %s: %s" % (rc, err.strip()[-200:])
 
 
-def _load_lines(path):
-    """observation lines; a line torn by a kill or holding garbage bytes (dangling reads) is kept as far as it parses"""
+def _load_lines(path, offset=0):
+    """observation lines from byte `offset` on -> (lines, new offset); a line torn by a kill or holding garbage bytes
+    (dangling reads) is skipped"""
     res = []
     if not os.path.exists(path):
-        return res
-    with open(path, encoding="utf-8", errors="replace") as fh:
-        for line in fh:
-            line = line.strip()
-            if not line:
-                continue
-            try:
-                res.append(json.loads(line))
-            except ValueError:
-                continue
-    return res
+        return res, offset
+    with open(path, "rb") as fh:
+        fh.seek(offset)
+        data = fh.read()
+    end = data.rfind(b"\n") + 1          # only complete lines
+    for raw in data[:end].split(b"\n"):
+        raw = raw.strip()
+        if not raw:
+            continue
+        try:
+            res.append(json.loads(raw.decode("utf-8", "replace")))
+        except ValueError:
+            continue
+    return res, offset + end
 
 
 def _proj_expected(case, k):
@@ -223,6 +227,8 @@ def run(channel, cases, wd, name, jobs=8, case_timeout=10.0, startup=30.0, isola
     if n == 0:
         return [], {"processes": 0, "wall_s": 0.0}
     jobs = max(1, min(jobs, n))
+    if isolate:
+        jobs = max(jobs, -(-n // 400))        # every process reads its shard file: keep the files small
     shards = [list(range(j, n, jobs)) for j in range(jobs)]
     gate = threading.Semaphore(MAX_JOBS)      # more shards than processes allowed at once: they take turns
     results = [None] * n
@@ -239,7 +245,7 @@ def run(channel, cases, wd, name, jobs=8, case_timeout=10.0, startup=30.0, isola
         if os.path.exists(opath):
             os.remove(opath)
         start = 0
-        consumed = 0      # observation lines already attributed
+        consumed = 0      # bytes of the observation file already attributed
         guard = 0
         while start < len(idxs):
             guard += 1
@@ -257,9 +263,7 @@ def run(channel, cases, wd, name, jobs=8, case_timeout=10.0, startup=30.0, isola
                 rc, err, timed_out = None, (te.stderr or b"").decode("utf-8", "replace") if isinstance(te.stderr, bytes) else (te.stderr or ""), True
             with lock:
                 stats["processes"] += 1
-            lines = _load_lines(opath)
-            new = lines[consumed:]
-            consumed = len(lines)
+            new, consumed = _load_lines(opath, consumed)
             by_id = {}
             order = []
             for ln in new:
